@@ -29,13 +29,13 @@ lack of memory. -/
 theorem loan_never_out_of_memory (cfg : Cfg) (hc : cfg.Sane) (w : World) (h : Reach cfg w)
     (hnp : w.panicked = false) (p l : Nat) :
     (step w (.loan p l)).2 ≠ "err:OutOfMemory" := by
-  sorry
+  exact (step_loan (reach_inv hc h) p l).2.1
 
 /-- … and the loan-to-exhaustion probe is always stopped by the loan limit, never by memory. -/
 theorem probe_never_out_of_memory (cfg : Cfg) (hc : cfg.Sane) (w : World) (h : Reach cfg w)
     (hnp : w.panicked = false) (p : Nat) (P : Pub) (hp : getP w p = some P) (ha : P.alive = true) :
     (step w (.probe p)).2 = s!"{P.maxLoans - P.loans.length}:ExceedsMaxLoans" := by
-  sorry
+  exact (step_probe (reach_inv hc h) p).2.2 P hp ha
 
 /-- A loan is decided by the loan limit alone: it succeeds iff fewer than `max_loaned_samples`
 loans are out (so it succeeds again as soon as one loan is returned); a refused loan changes
@@ -48,7 +48,10 @@ theorem loan_ok_iff (cfg : Cfg) (hc : cfg.Sane) (w : World) (h : Reach cfg w) (h
     ((step w (.loan p l)).2 ≠ "ok" →
       (step w (.loan p l)).2 = "err:ExceedsMaxLoans" ∧
       ∃ P', getP (step w (.loan p l)).1 p = some P' ∧ P'.loans = P.loans ∧ P'.loanCnt = P.loanCnt) := by
-  sorry
+  have hfresh' : ∀ lc ∈ P.loans, lc.1 ≠ l := by
+    intro lc hlc e
+    exact hfresh lc.2 (by rw [← e]; exact hlc)
+  exact (step_loan (reach_inv hc h) p l).2.2.2 P hp ha hfresh'
 
 /-- A release never fails for lack of queue space: the completion queue of a connection never
 holds more than `buffer + max borrowed` entries (its capacity is one more). -/
@@ -56,7 +59,9 @@ theorem completion_queue_never_full (cfg : Cfg) (hc : cfg.Sane) (w : World) (h :
     (cn : Conn) (hcn : cn ∈ w.conns) :
     cn.sub.length + cn.borrow + cn.comp.length ≤ cn.cap + cfg.borrowMax ∧
     cn.borrow ≤ cfg.borrowMax ∧ cn.sub.length ≤ cn.cap ∧ cn.cap ≤ cfg.bufMax := by
-  sorry
+  have hI := reach_inv hc h
+  have := (hI.c cn.pid cn.sid cn (getC_of_mem hI.u hcn)).ok
+  exact ⟨this.tot, this.borLe, this.subLe, this.capM⟩
 
 /-- … so dropping a sample whose connection still exists always returns the chunk. -/
 theorem release_succeeds (cfg : Cfg) (hc : cfg.Sane) (w : World) (h : Reach cfg w)
@@ -64,7 +69,31 @@ theorem release_succeeds (cfg : Cfg) (hc : cfg.Sane) (w : World) (h : Reach cfg 
     (cn : Conn) (hk : smGet S.storage hd.key = some hd.pid) (hcn : getC w hd.pid s = some cn) :
     ∃ cn', getC (subRelease w s hd) hd.pid s = some cn' ∧ cn'.comp = cn.comp ++ [hd.chunk] ∧
       cn'.borrow + 1 = cn.borrow := by
-  sorry
+  have hI := reach_inv hc h
+  have hCI := hI.c hd.pid s cn hcn
+  have hcnt := hCI.held S hs
+  have hpos : 1 ≤ cn.borrow := by
+    rw [hcnt]
+    have : hd ∈ S.held.filter (·.pid = hd.pid) := List.mem_filter.mpr ⟨hh, by simp⟩
+    exact List.length_pos_of_mem this
+  have hcomp : cn.comp.length < cn.cap + w.cfg.borrowMax + 1 := by
+    have := hCI.ok.tot; rw [hI.r.cfgEq]; omega
+  have hkey := getC_key hcn
+  have hk1 : ({ cn with comp := cn.comp ++ [hd.chunk], borrow := cn.borrow - 1 } : Conn).pid = hd.pid ∧
+      ({ cn with comp := cn.comp ++ [hd.chunk], borrow := cn.borrow - 1 } : Conn).sid = s := hkey
+  have hrel : subRelease w s hd = setC w { cn with comp := cn.comp ++ [hd.chunk], borrow := cn.borrow - 1 } := by
+    unfold subRelease
+    rw [hs]
+    dsimp only
+    rw [hk]
+    dsimp only
+    rw [if_neg (by simp), hcn]
+    dsimp only
+    exact if_pos hcomp
+  rw [hrel, getC_setC_self hcn _ hk1]
+  refine ⟨{ cn with comp := cn.comp ++ [hd.chunk], borrow := cn.borrow - 1 }, by simp, rfl, ?_⟩
+  show cn.borrow - 1 + 1 = cn.borrow
+  omega
 
 /-- Port limits: creating a publisher succeeds iff a registry slot is free, and a refused
 creation leaves the world as it was (and analogously for subscribers, given valid QoS requests). -/
@@ -76,7 +105,12 @@ theorem cpub_ok_iff (cfg : Cfg) (hc : cfg.Sane) (w : World) (h : Reach cfg w) (h
       (step w (.cpub p ml)).1.pubs = w.pubs ∧ (step w (.cpub p ml)).1.subs = w.subs ∧
       (step w (.cpub p ml)).1.conns = w.conns ∧
       (step w (.cpub p ml)).1.pubReg.slots = w.pubReg.slots) := by
-  sorry
+  have hI := reach_inv hc h
+  obtain ⟨a, b⟩ := (step_cpub hI p ml).2.2 hnp hfresh
+  refine ⟨a, fun hne => ?_⟩
+  obtain ⟨b1, b2⟩ := b hne
+  rw [b2]
+  exact ⟨b1, rfl, rfl, rfl, rfl⟩
 
 theorem csub_ok_iff (cfg : Cfg) (hc : cfg.Sane) (w : World) (h : Reach cfg w) (hnp : w.panicked = false)
     (s : Nat) (hfresh : getS w s = none) :
@@ -86,18 +120,36 @@ theorem csub_ok_iff (cfg : Cfg) (hc : cfg.Sane) (w : World) (h : Reach cfg w) (h
       (step w (.csub s none none)).1.pubs = w.pubs ∧ (step w (.csub s none none)).1.subs = w.subs ∧
       (step w (.csub s none none)).1.conns = w.conns ∧
       (step w (.csub s none none)).1.subReg.slots = w.subReg.slots) := by
-  sorry
+  have hI := reach_inv hc h
+  obtain ⟨a, b⟩ := step_csub_default hc hI s hfresh hnp
+  refine ⟨a, fun hne => ?_⟩
+  obtain ⟨b1, b2⟩ := b hne
+  rw [b2]
+  exact ⟨b1, rfl, rfl, rfl, rfl⟩
 
 /-- The registries never hold more ports than the service supports. -/
 theorem registry_within_limits (cfg : Cfg) (hc : cfg.Sane) (w : World) (h : Reach cfg w) :
     w.pubReg.slots.length = cfg.maxPubs ∧ w.subReg.slots.length = cfg.maxSubs ∧ w.cfg = cfg := by
-  sorry
+  have hI := reach_inv hc h
+  exact ⟨hI.r.pubLen, hI.r.subLen, hI.r.cfgEq⟩
 
 /-- No API call panics as long as the application holds at most `max borrowed` samples per
 subscriber. -/
 theorem no_panic_disciplined (cfg : Cfg) (hc : cfg.Sane) (w : World) (h : ReachD cfg w) :
     w.panicked = false := by
-  sorry
+  have key : Reach cfg w ∧ Disciplined w ∧ w.panicked = false := by
+    induction h with
+    | init => exact ⟨.init, fun s S hS => by simp [World.init, getS] at hS, rfl⟩
+    | step op _ hnp hd ih =>
+      obtain ⟨r, d, _⟩ := ih
+      have hI := reach_inv hc r
+      refine ⟨.step op r hnp, hd, ?_⟩
+      apply step_no_panic hc hI hnp
+      intro s S hS
+      have := d s S hS
+      rw [hI.r.cfgEq] at this
+      exact this
+  exact key.2.2
 
 /-- FALSE without discipline (findings D19/D20): the borrow limit is enforced per connection, so a
 subscriber can hold samples of more dead publishers than the expired-connection buffer has room
